@@ -472,3 +472,73 @@ func (e *Exec) FixedPoint(j *Judgement) {
 		j.add("fixpoint", []string{"C09"}, "fixpoint/not-a-fixed-point", "the controllers were idle but re-examining the objects changed the state:\n before %s\n after  %s", before, after)
 	}
 }
+
+// monitorWatchers: C15 in vivo – every controller watcher of the live incarnation must have been shown the
+// latest version of every record (the stores' own contract). A miss is what turns into a lost wake-up.
+func (e *Exec) monitorWatchers(j *Judgement, events []*world.Event) (missed int) {
+	cur := e.W.Cur().N
+	type rec struct{ store, id string }
+	final := map[rec]uint64{}
+	for _, ev := range events {
+		if !ev.OK {
+			continue
+		}
+		switch {
+		case ev.Prop != nil && strings.HasPrefix(ev.Kind, "prop."):
+			r := rec{"prop", string(ev.Prop.ID)}
+			if ev.Prop.Version > final[r] {
+				final[r] = ev.Prop.Version
+			}
+		case ev.Tx != nil && strings.HasPrefix(ev.Kind, "tx."):
+			r := rec{"tx", fmt.Sprintf("tx%d", ev.Tx.Index)}
+			if ev.Tx.Version > final[r] {
+				final[r] = ev.Tx.Version
+			}
+		case ev.Cfg != nil && strings.HasPrefix(ev.Kind, "cfg."):
+			r := rec{"cfg", string(ev.Cfg.ID)}
+			if ev.Cfg.Version > final[r] {
+				final[r] = ev.Cfg.Version
+			}
+		}
+	}
+	seen := map[string]map[rec]uint64{} // watcher -> record -> highest version delivered
+	if e.W.Cur().HasControllers() {
+		// the subscriptions NewController sets up (a watcher that was never shown anything must be noticed too)
+		for _, w := range []string{"watcher:proposal/prop", "watcher:transaction/prop", "watcher:transaction/tx",
+			"watcher:mastership/cfg", "watcher:configuration/cfg", "watcher:proposal/cfg"} {
+			seen[w] = map[rec]uint64{}
+		}
+	}
+	for _, ev := range events {
+		if !strings.HasPrefix(ev.Kind, "watch.") || ev.Inc != cur || strings.HasPrefix(ev.Task, "watcher:handler") {
+			continue
+		}
+		f := strings.Fields(ev.Note)
+		if len(f) < 3 {
+			continue
+		}
+		v, _ := strconv.ParseUint(strings.TrimPrefix(f[2], "v"), 10, 64)
+		r := rec{strings.TrimPrefix(ev.Kind, "watch."), f[1]}
+		w := ev.Task + "/" + r.store
+		if seen[w] == nil {
+			seen[w] = map[rec]uint64{}
+		}
+		if v > seen[w][r] {
+			seen[w][r] = v
+		}
+	}
+	for w, m := range seen {
+		store := w[strings.LastIndex(w, "/")+1:]
+		for r, fv := range final {
+			if r.store != store {
+				continue
+			}
+			e.C.Count("watcher_final_versions_checked", 1)
+			if m[r] < fv {
+				missed++
+				j.add("watchers", []string{"C15"}, "watchers/missed-latest-version", "%s was never shown version %d of %s %s (last shown: %d)", strings.TrimSuffix(w, "/"+store), fv, r.store, r.id, m[r])
+			}
+		}
+	}
+	return missed
+}
